@@ -4,7 +4,7 @@ from concurrent.futures import ThreadPoolExecutor
 import common
 
 UNSAFE_OPS = {'adv', 'poke', 'pokeinit', 'edit', 'setindex', 'goback'}
-CA_RE = re.compile(r' \| ca=[^ |]*')
+CA_RE = re.compile(r' \| ca=[^ |]*| \| at=\S*')
 
 class Div:
     """One divergence: the implementation's line differs from the model's (kind 'tie') or, on a
